@@ -5,16 +5,17 @@
 #include <unistd.h>
 #include <signal.h>
 
-static const int LEVELS[3] = { 0, 1, 3 };
+static const int LEVELS[4] = { 0, 1, 3, 1 }, SILENT[4] = { 0, 0, 0, 1 };     /* the fourth cell: level 1 with libast_set_silent(TRUE) */
+#define NCELL 4
 static void n_desc(uint64_t idx, void *ctx, char *b, size_t n)
 {
-    const null_case_t *c = &NULL_CASES[idx / 3]; (void) ctx;
-    snprintf(b, n, "%s(...) with parameter %d (%s) = NULL, others valid, runtime debug level %d; guard %s, stated failure value %s%s", c->func, c->pos + 1, c->param, LEVELS[idx % 3], c->kind, *c->val ? c->val : "(none: void)", c->pinned ? "" : " [not in the pinned table]");
+    const null_case_t *c = &NULL_CASES[idx / NCELL]; (void) ctx;
+    snprintf(b, n, "%s(...) with parameter %d (%s) = NULL, others valid, runtime debug level %d%s; guard %s, stated failure value %s%s", c->func, c->pos + 1, c->param, LEVELS[idx % NCELL], SILENT[idx % NCELL] ? " with output silenced" : "", c->kind, *c->val ? c->val : "(none: void)", c->pinned ? "" : " [not in the pinned table]");
 }
 static void n_case(uint64_t idx, void *ctx)
 {
-    const null_case_t *c = &NULL_CASES[idx / 3]; int level = LEVELS[idx % 3]; (void) ctx;
-    char shape[96]; snprintf(shape, sizeof shape, "%s, level %s", c->kind, level ? ">=1" : "0");
+    const null_case_t *c = &NULL_CASES[idx / NCELL]; int level = LEVELS[idx % NCELL], silent = SILENT[idx % NCELL]; (void) ctx;
+    char shape[96]; snprintf(shape, sizeof shape, "%s, level %s%s", c->kind, level ? ">=1" : "0", silent ? ", silent" : "");
     mc_set_shape(shape);
     int rp[2], ep[2]; if (pipe(rp) || pipe(ep)) return;
     fflush(NULL);
@@ -23,7 +24,7 @@ static void n_case(uint64_t idx, void *ctx)
         res_t r; memset(&r, 0, sizeof r);
         close(rp[0]); close(ep[0]); dup2(ep[1], 2);
         mc_child_reset();
-        libast_debug_level = (unsigned) level;
+        libast_debug_level = (unsigned) level; libast_set_silent(silent ? TRUE : FALSE);
         c->fn(&r);
         if (write(rp[1], &r, sizeof r) != sizeof r) _exit(9);
         _exit(0);
@@ -41,7 +42,7 @@ static void n_case(uint64_t idx, void *ctx)
     if (WIFSIGNALED(st)) FAIL(site, "crash:signal", shape, "the call ended with signal %d instead of failing soft", WTERMSIG(st));
     else if (WIFEXITED(st) && WEXITSTATUS(st) == 255) {
         if (level == 0) FAIL(site, "model:fatal-at-level-0", shape, "the process was ended at runtime debug level 0");
-        else if (!strstr(err, "ASSERT failed") && !strstr(err, "Fatal")) FAIL(site, "model:exit-without-diagnostic", shape, "exit status 255 without the fatal-error diagnostic");
+        else if (!silent && !strstr(err, "ASSERT failed") && !strstr(err, "Fatal")) FAIL(site, "model:exit-without-diagnostic", shape, "exit status 255 without the fatal-error diagnostic");
         else if (!strcmp(c->kind, "REQUIRE_RVAL") || !strcmp(c->kind, "REQUIRE") || !strcmp(c->kind, "COMP")) FAIL(site, "model:fatal-on-soft-guard", shape, "a %s guard ended the process", c->kind);
     } else if (WIFEXITED(st) && WEXITSTATUS(st) == 0 && got == (ssize_t) sizeof r && r.returned) {
         if (!r.ret_ok) FAIL(site, "model:failure-value", shape, "returned something other than the stated failure value %s", c->val);
@@ -56,8 +57,8 @@ int main(int argc, char **argv)
     mc_init("C16", argc, argv);
     int unpinned = 0; for (int i = 0; i < N_NULL_CASES; i++) if (!NULL_CASES[i].pinned) unpinned++;
     mc_info("alphabet", "%d (entry point, guarded pointer parameter) rows parsed from the guards of obj, str, ustr, mbuff, objpair, tok, url, regexp, socket, array, linked_list, dlinked_list (incl. their class-table methods), strings, conf, msgs, mem, file, options "
-            "x runtime debug levels {0,1,3}; %d rows are not in the pinned table; unsupported: %s", N_NULL_CASES, unpinned, NULL_UNSUPPORTED);
+            "x runtime debug levels {0,1,3} and level 1 with output silenced; rows of functions with position parameters are repeated with the position at 40 and -1; %d rows are not in the pinned table; unsupported: %s", N_NULL_CASES, unpinned, NULL_UNSUPPORTED);
     mc_stat_add("unpinned_rows", unpinned);
-    mc_e2_level("nullmatrix", 3, (uint64_t) N_NULL_CASES * 3, n_case, n_desc, NULL);
+    mc_e2_level("nullmatrix", 3, (uint64_t) N_NULL_CASES * NCELL, n_case, n_desc, NULL);
     return mc_finish();
 }
